@@ -11,6 +11,7 @@ import (
 	"sort"
 	"strings"
 	"sync"
+	"sync/atomic"
 	"testing"
 	"testing/synctest"
 	"time"
@@ -122,6 +123,11 @@ func buildZone(names []SeqName, st []nameState, fault string) *simdoh.Zone {
 		z.Faults = []simdoh.Fault{{Kind: simdoh.FaultStatus, Status: 502, Count: 2}}
 	case "refused":
 		z.Faults = []simdoh.Fault{{Kind: simdoh.FaultRCode, RCode: 5}}
+	case "rcode9":
+		// a response code without a name of its own in the library (NOTAUTH): a failure all the same
+		z.Faults = []simdoh.Fault{{Kind: simdoh.FaultRCode, RCode: 9}}
+	case "rcode6":
+		z.Faults = []simdoh.Fault{{Kind: simdoh.FaultRCode, RCode: 6}}
 	}
 	return z
 }
@@ -505,7 +511,7 @@ func genC16(seed uint64, idx int) *Plan {
 			if failing {
 				p.Ops = append(p.Ops, SeqOp{Op: "heal"})
 			} else {
-				p.Ops = append(p.Ops, SeqOp{Op: "fail", Fail: core.Pick(r, []string{"5xx", "transport", "servfail", "burst", "refused"})})
+				p.Ops = append(p.Ops, SeqOp{Op: "fail", Fail: core.Pick(r, []string{"5xx", "transport", "servfail", "burst", "refused", "rcode9", "rcode6"})})
 			}
 			failing = !failing
 		default:
@@ -751,6 +757,12 @@ type ConcPlan struct {
 	YieldPct   int       `json:"yield_pct"`
 	CacheSize  int       `json:"cache_size"`
 	Networks   []string  `json:"networks"`
+	// MovingClock: the cache's clock (hook H3) is a counter that a ticker
+	// goroutine advances in PRNG steps while the lookups are in flight, so that
+	// entries expire in the middle of concurrent calls (the bubble's own clock
+	// only moves when every goroutine sleeps). Judged by the race detector and
+	// the panic / leak monitors only: ages are not comparable across the two clocks.
+	MovingClock bool `json:"moving_clock,omitempty"`
 }
 
 func genConc(seed uint64, r *rand.Rand) *Plan {
@@ -773,6 +785,15 @@ func genConc(seed uint64, r *rand.Rand) *Plan {
 	p.YieldPct = core.Pick(r, []int{0, 10, 50, 90})
 	p.CacheSize = core.Pick(r, []int{-1, -1, -1, 2, 64})
 	p.Networks = core.Pick(r, [][]string{{"tcp"}, {"tcp", "tcp4"}, {"tcp6", "udp"}, {"tcp", "tcp", "tcp4", "tcp6"}})
+	if core.Chance(r, 1, 3) {
+		p.MovingClock = true
+		p.SleepMs = []int{0}
+		p.Goroutines = max(p.Goroutines, 3)
+		p.Iter = max(p.Iter, 12)
+		for i := range p.Names {
+			p.Names[i].TTLs = []uint32{uint32(core.Pick(r, []int{1, 1, 2, 5}))}
+		}
+	}
 	return &Plan{Kind: "conc", Seed: seed, Conc: p}
 }
 
@@ -816,6 +837,26 @@ func executeConc(t *testing.T, prop string, pl *Plan) *core.Result {
 		if err != nil {
 			res.Harness = err.Error()
 			return
+		}
+		var clk atomic.Int64
+		var stopTicker atomic.Bool
+		tickerDone := make(chan struct{})
+		if p.MovingClock {
+			base := time.Now()
+			ech.VerifSetClock(func() time.Time { return base.Add(time.Duration(clk.Load())) })
+			defer ech.VerifSetClock(nil)
+			go func() {
+				defer close(tickerDone)
+				tr := core.NewRand(pl.Seed, "ticker")
+				for !stopTicker.Load() {
+					for i := tr.IntN(4); i >= 0; i-- {
+						runtime.Gosched()
+					}
+					clk.Add(int64(tr.IntN(1500)) * int64(time.Millisecond))
+				}
+			}()
+		} else {
+			close(tickerDone)
 		}
 		per := make([][]callRec, p.Goroutines)
 		ntargets := make([]int, p.Goroutines)
@@ -876,6 +917,8 @@ func executeConc(t *testing.T, prop string, pl *Plan) *core.Result {
 			}()
 		}
 		wg.Wait()
+		stopTicker.Store(true)
+		<-tickerDone
 		for g := range per {
 			calls = append(calls, per[g]...)
 			targets += ntargets[g]
@@ -900,7 +943,16 @@ func executeConc(t *testing.T, prop string, pl *Plan) *core.Result {
 		res.Fail(prop, "goroutine-leak", "library goroutine alive after the workload: "+leakedLib[0], "%v", leakedLib)
 	}
 	resps := responsesOf(entries)
-	judgeHistory(res, prop, calls, resps, nil, false, nil)
+	if p.MovingClock {
+		res.Probe("moving_clock_workload")
+		for _, c := range calls {
+			if c.panicMsg != "" {
+				res.Fail(prop, "panic", c.panicAt+": "+normMsg(c.panicMsg), "goroutine %d, Resolve(%q)", c.g, p.Names[c.name].Host)
+			}
+		}
+	} else {
+		judgeHistory(res, prop, calls, resps, nil, false, nil)
+	}
 	for i := range resps {
 		if resps[i].failed {
 			res.Fault("upstream_failure")
